@@ -44,7 +44,7 @@ fn main() {
     if ctx.enabled(mname) {
         let mon = Monitor::new(
             mname,
-            "every listed type x f32/f64: full cross product of {far below, 1 ulp below, on, inside, on, 1 ulp above, far above} per component (mixed below/above patterns included) plus seeded points in [lo-3W, hi+4W]; checks: clamp is within bounds, identity on in-bounds colours, idempotent, each clamped component equals the documented bound (HWB: sum normalised), is_within_bounds agrees with the documented bounds, by-value == assigning form; \
+            "every listed type x f32/f64: full cross product of {far below, 1 ulp below, on, inside, on, 1 ulp above, far above} per component (mixed below/above patterns included) plus seeded points in [lo-3W, hi+4W]; checks: clamp is within bounds, identity on in-bounds colours, idempotent, each clamped component equals the documented bound (HWB: sum normalised), is_within_bounds agrees with the documented bounds, by-value == assigning form; every 4th input also as Alpha<C, T> with alpha in {-1, -1e-9, 0, 1/2, 1, 1+1e-6, 2, 1e30}: within bounds iff the colour is and 0 <= alpha <= 1, clamp = colour clamp + alpha clamp, result within bounds, unchanged when it reported within bounds, by-value == assigning; \
              distinct = (type, below/inside/above pattern of the three components)",
         );
         let replay = ctx.replay.as_ref().filter(|r| r.monitor == mname).map(|r| (r.inst.clone(), parse_bits64(&r.input["bits"])));
@@ -102,6 +102,7 @@ fn main() {
                 }
                 let hwb = matches!(sp, Space::Hwb(_) | Space::Okhwb);
                 let okhsv = matches!(sp, Space::Okhsv);
+                let mut alpha_turn = 0u64;
                 for mut x in inputs {
                     if ty.is_f32 {
                         x = [x[0] as f32 as f64, x[1] as f32 as f64, x[2] as f32 as f64];
@@ -187,6 +188,34 @@ fn main() {
                         let c = if b[k].0.map_or(false, |l| x[k] < l) { 0 } else if b[k].1.map_or(false, |h| x[k] > h) { 2 } else { 1 };
                         c << (2 * k)
                     }).sum();
+                    // ---- the Alpha-wrapped form of the same colour: alpha is one more component with bounds [0, 1]
+                    alpha_turn += 1;
+                    if alpha_turn % 4 == 0 || replay.is_some() {
+                        for &a0 in &[-1.0, -1e-9, 0.0, 0.5, 1.0, 1.0 + 1e-6, 2.0, 1e30] {
+                            let a = if ty.is_f32 { a0 as f32 as f64 } else { a0 };
+                            let (aw, cc, ca, bc, ba, cw) = ct::alpha_bounds(i, x, a);
+                            m.evals(4);
+                            let ainp = || json!({"bits": bits64(&x), "x": fvec(&x), "alpha": a});
+                            let inst = format!("Alpha<{}>", ty.name);
+                            let alpha_in = (0.0..=1.0).contains(&a);
+                            if aw != (inb && alpha_in) {
+                                m.violate(&inst, "alpha_is_within_bounds_ignores_or_misjudges_alpha", ainp(), json!(aw), json!(inb && alpha_in), "within bounds iff the colour is and 0 <= alpha <= 1");
+                            }
+                            if !cw {
+                                m.violate(&inst, if hwb_sum_rounding { "alpha_clamp_result_not_within_bounds:hwb_sum_one_ulp_above_one" } else { "alpha_clamp_result_not_within_bounds" }, ainp(), json!({"color": fvec(&cc), "alpha": ca}), json!("is_within_bounds() == true"), "");
+                            }
+                            if aw && (!same(&cc, &x) || ca.to_bits() != a.to_bits()) {
+                                m.violate(&inst, "alpha_clamp_changes_a_color_that_reports_within_bounds", ainp(), json!({"color": fvec(&cc), "alpha": ca}), json!({"color": fvec(&x), "alpha": a}), "");
+                            }
+                            if !same(&cc, &y) || ca != a.clamp(0.0, 1.0) {
+                                m.violate(&inst, "alpha_clamp_differs_from_colour_clamp_plus_alpha_clamp", ainp(), json!({"color": fvec(&cc), "alpha": ca}), json!({"color": fvec(&y), "alpha": a.clamp(0.0, 1.0)}), "");
+                            }
+                            if !same(&cc, &bc) || ca.to_bits() != ba.to_bits() {
+                                m.violate(&inst, "alpha_clamp_vs_clamp_assign", ainp(), json!({"clamp": [fvec(&cc), json!(ca)], "clamp_assign": [fvec(&bc), json!(ba)]}), json!("identical"), "");
+                            }
+                        }
+                        m.cell(pvmon::rng::mix(i as u64, 1000 + pat));
+                    }
                     m.cell(pvmon::rng::mix(i as u64, pat));
                     m.count(if pat == 0b010101 { "inputs_in_bounds" } else { "inputs_out_of_bounds" });
                 }
